@@ -105,6 +105,9 @@ class Figure(DirectivePlugin):
             return None
 
         tokens = list(self.parse_tokens(block, content, state))
+        if not tokens:
+            # content that leaves no token (a link reference definition only)
+            return None
         caption = tokens[0]
         if caption["type"] == "paragraph":
             caption["type"] = "figcaption"
